@@ -77,3 +77,36 @@ pub proof fn lemma_some_winner(sd: Showdown, players: Seq<CardPair>, board: Seq<
     assert(sd.players@[m].win);
     lemma_win_count_pos(sd.players@, m);
 }
+
+// ---------- C11 (L11b): winner flags depend on the strengths only, and follow the players ----------
+
+/// pi maps positions of the second line-up to positions of the first; strengths agree along pi
+pub open spec fn strengths_follow(ps1: Seq<CardPair>, b1: Seq<Card>, ps2: Seq<CardPair>, b2: Seq<Card>, pi: spec_fn(int) -> int, inv: spec_fn(int) -> int) -> bool {
+    &&& ps1.len() == ps2.len()
+    &&& forall|i: int| 0 <= i < ps2.len() ==> 0 <= #[trigger] pi(i) < ps1.len() && inv(pi(i)) == i
+    &&& forall|j: int| 0 <= j < ps1.len() ==> 0 <= #[trigger] inv(j) < ps2.len() && pi(inv(j)) == j
+    &&& forall|i: int| 0 <= i < ps2.len() ==> strength(#[trigger] ps2[i], b2) == strength(ps1[pi(i)], b1)
+}
+
+/// relabelled suits (pi = identity) leave every flag unchanged; reordered players take their flags along
+pub proof fn lemma_flags_follow(sd1: Showdown, ps1: Seq<CardPair>, b1: Seq<Card>, p1: f32,
+                                sd2: Showdown, ps2: Seq<CardPair>, b2: Seq<Card>, p2: f32,
+                                pi: spec_fn(int) -> int, inv: spec_fn(int) -> int)
+    requires is_showdown_of(sd1, ps1, b1, p1), is_showdown_of(sd2, ps2, b2, p2), strengths_follow(ps1, b1, ps2, b2, pi, inv),
+    ensures forall|i: int| 0 <= i < ps2.len() ==> (#[trigger] sd2.players@[i]).win == sd1.players@[pi(i)].win,
+{
+    assert forall|i: int| 0 <= i < ps2.len() implies (#[trigger] sd2.players@[i]).win == sd1.players@[pi(i)].win by {
+        let k = pi(i);
+        if sd1.players@[k].win {
+            assert forall|j: int| 0 <= j < ps2.len() implies strength(#[trigger] ps2[j], b2) >= strength(ps2[i], b2) by {
+                assert(strength(ps1[pi(j)], b1) >= strength(ps1[k], b1));
+            }
+        }
+        if sd2.players@[i].win {
+            assert forall|j: int| 0 <= j < ps1.len() implies strength(#[trigger] ps1[j], b1) >= strength(ps1[k], b1) by {
+                assert(strength(ps2[inv(j)], b2) >= strength(ps2[i], b2));
+                assert(pi(inv(j)) == j);
+            }
+        }
+    }
+}
